@@ -459,6 +459,12 @@ func (t *Topic) handleMeta(msg *ClientComMessage) {
 
 	case msg.Set != nil:
 		// Set request
+		if pud, ok := t.perUser[asUid]; (!ok || pud.deleted) && !asChan {
+			// The request may come from a session which is not attached (forwarded by the hub):
+			// only a subscriber can update the topic or the subscription.
+			msg.sess.queueOut(ErrNotFoundReply(msg, types.TimeNow()))
+			return
+		}
 		t.handleMetaSet(msg, asUid, asChan, authLevel)
 
 	case msg.Del != nil:
